@@ -121,6 +121,14 @@ func parseSCPSSH(raw string, kind Kind) (*URL, error) {
 		return nil, errors.New("no hostname present")
 	}
 
+	// Disallow hostnames and usernames that would be interpreted as command
+	// line options by the ssh and scp commands.
+	if hostname[0] == '-' {
+		return nil, errors.New("hostname resembles a command line option")
+	} else if username != "" && username[0] == '-' {
+		return nil, errors.New("username resembles a command line option")
+	}
+
 	// Parse off the port. This is not a standard SCP URL syntax (and even Git
 	// makes you use full SSH URLs if you want to specify a port), so we invent
 	// our own rules here, but essentially we just scan until the next colon,
